@@ -13,7 +13,10 @@ import tempfile
 
 from .. import common
 
-GEN = ["Edges.v"]
+GEN = ['Edges.v']
+DECISIONS = []
+SITES = False
+ORDER = False
 
 EDITS = ["arg_nested", "arg_top", "ret_fresh", "ret_cached", "ret_file_fresh", "ret_file_cached", "list_dir", "walk_prune", "walk_entry", "kwarg"]
 
